@@ -453,6 +453,9 @@ func Exec(fsys hackpadfs.FS, st Step, hs *Handles, mt MTimeSet) (res Result) {
 		if st.N == 1 {
 			at = time.Time{} // the zero time: "leave the access time alone" for os.Chtimes; the modification time is still set
 		}
+		if st.N == 2 {
+			at, t = time.Time{}, time.Time{} // both left alone: nothing to do, but the name is looked at all the same
+		}
 		fillErr(&res, hackpadfs.Chtimes(fsys, st.P, at, t))
 	case "Stat", "Lstat", "LstatOrStat":
 		var info fs.FileInfo
